@@ -148,6 +148,6 @@ Proof.
   destruct Erd as [Erd1 Erd2]. rewrite Erd1, Erd2.
   destruct (n_pid n) as [b|] eqn:Ep; cbn [option_map pid_bytes] in *.
   - assert (Eb : be 4 (val b) = b) by (rewrite <- Hpid; apply be_val; exact Bpid).
-    rewrite Eb. cbn [app]. f_equal. f_equal. unfold zlen. lia.
-  - cbn [app]. f_equal. unfold zlen. lia.
+    rewrite Eb. cbn [app]. unfold zlen. tup.
+  - cbn [app]. unfold zlen. tup.
 Qed.
